@@ -66,6 +66,9 @@ def st_case(draw):
     b = draw(st.sampled_from([0.0, 0.0, 0.0, -2.0, 2.0]))
     if b:
         case["b"] = b
+        # corners of the claimed range: the smallest / largest temperatures reachable
+        if draw(st.booleans()):
+            case["u"] = draw(st.sampled_from([-2.0, -1.5])) if b < 0 else draw(st.sampled_from([2.0, 1.5]))
     if draw(st.sampled_from([False, False, True])):
         parts = [{"name": "top", "y": round(draw(st.floats(0.7, 1.1)), 3), "stat": "Fermion", "dof": 12,
                   "field": 0, "m0sq": 0.0}]
